@@ -2566,6 +2566,12 @@ def _tensordot_via_fused(a, b, left_axes, axes_a, axes_b, right_axes):
     af = AbelianArray.fuse(a, left_axes, axes_a, expand_empty=False)
     bf = AbelianArray.fuse(b, axes_b, right_axes, expand_empty=False)
 
+    # only groups of more than one axis are actually fused here: a single
+    # free axis is passed through as is, and if it was already fused by the
+    # caller it should stay so (as in the blockwise mode)
+    unfuse_left = len(left_axes) > 1
+    unfuse_right = len(right_axes) > 1
+
     # handle potential vector and scalar cases
     left_axes, axes_a = {
         (False, False): ((), ()),  # left scalar
@@ -2585,9 +2591,10 @@ def _tensordot_via_fused(a, b, left_axes, axes_a, axes_b, right_axes):
     cf = _tensordot_blockwise(af, bf, left_axes, axes_a, axes_b, right_axes)
 
     # unfuse result into (*left_axes, *right_axes)
-    for ax in reversed(range(cf.ndim)):
-        if cf.indices[ax].subinfo is not None:
-            AbelianArray.unfuse(cf, ax, inplace=True)
+    if unfuse_right:
+        AbelianArray.unfuse(cf, cf.ndim - 1, inplace=True)
+    if unfuse_left:
+        AbelianArray.unfuse(cf, 0, inplace=True)
 
     return cf
 
